@@ -4,6 +4,7 @@
 package pj
 
 import (
+	"sync/atomic"
 	"bufio"
 	"crypto/sha256"
 	"encoding/hex"
@@ -86,6 +87,9 @@ func (s *Session) ReadLog(from int) []LogEntry {
 	return out
 }
 
+// LogPath is the execution log file.
+func (s *Session) LogPath() string { return s.ctl("exec.log") }
+
 func (s *Session) LogLen() int {
 	b, err := os.ReadFile(s.ctl("exec.log"))
 	if err != nil {
@@ -123,9 +127,12 @@ var (
 	EmitChunks func(label string) [][]byte
 )
 
+// Disarmed suspends counting and killing (the warm-up build of a long-lived project).
+var Disarmed atomic.Bool
+
 // Point is installed as dawn.VerifPoint in children and called by v.body for body.* points.
 func Point(name, label string) {
-	if crashSpec == "" && countFile == "" {
+	if (crashSpec == "" && countFile == "") || Disarmed.Load() {
 		return
 	}
 	crashMu.Lock()
